@@ -189,6 +189,8 @@ def run_ws(item):
 
 def check_ws(ctx):
     from ..core import tmap
+    import black  # noqa: F401  (imported here, in the main thread: worker threads that import it concurrently can see a partially initialised module)
+    import tomllib  # noqa: F401
     items = [(lay, st) for lay in WS_LAYOUTS for st in WS_STARTS]
     for (lay, st), o in zip(items, tmap(run_ws, items)):
         ctx.count(("workspace", lay[0], st), True)
